@@ -532,3 +532,18 @@ Proof.
   eapply or_float_div; [|exact NP|exact Hr|exact Xr].
   exact (rchecked_div_spec p 32 (ln, ld) (rn, rd) H32 (rwf_rok _ _ Wa) (rwf_rok _ _ Wb) Nz).
 Qed.
+
+(* remainder with an integer-valued Rational divisor as well (the arms excluded from
+   remainder_exact): Fixnum % n/1 runs on Rational64, BigInt % n/1 on BigInt *)
+Definition rem_known (a b : num) : bool :=
+  match a, b with Fixnum l, Rational rn _ => (l =? I64_MIN) && (rn =? -1) | _, _ => false end.
+Theorem remainder_exact_gen p a b za zb :
+  wfb a = true -> wfb b = true ->
+  int_of a = Some za -> int_of b = Some zb -> zb <> 0 -> both_rational a b = false ->
+  rem_known a b = false ->
+  exists r, num_rem p a b = Ok (Some r) /\ int_of r = Some (Z.rem za zb) /\ wfb r = true.
+Proof.
+  intros Wa Wb Ia Ib Nz NR NK.
+  destruct (rem_int_result p a b za zb Wa Wb Ia Ib Nz NR NK) as [r [H [I [W _]]]].
+  exists r. auto.
+Qed.
